@@ -12,8 +12,11 @@ Oracle: a third transcription of the cited equations in plain Python (`math` onl
 from __future__ import annotations
 
 import bisect
+import contextlib
 import json
 import math
+import os
+import sys
 import warnings
 from pathlib import Path
 
@@ -233,6 +236,22 @@ def tmv(vals):
     return ThrustModeValues(*[float(v) for v in vals])
 
 
+@contextlib.contextmanager
+def quiet_fd1():
+    """LAPACK reports illegal arguments (rank-deficient polyfit, FC12a) straight to file descriptor 1;
+    keep the check's stdout clean for the VIOLATION / KNOWN-FINDING lines."""
+    sys.stdout.flush()
+    saved = os.dup(1)
+    devnull = os.open(os.devnull, os.O_WRONLY)
+    os.dup2(devnull, 1)
+    try:
+        yield
+    finally:
+        os.dup2(saved, 1)
+        os.close(saved)
+        os.close(devnull)
+
+
 def impl_case(c):
     """Run the real code on one case; returns plain python floats/strings (or {'error': ...})."""
     np = _np()
@@ -255,6 +274,10 @@ def impl_case(c):
                 p2 = np.asarray(pressure_at_altitude_isa_bada4(h2), dtype=float)
                 return {'T': T.tolist(), 'p': p.tolist(), 'h_back': hb.tolist(),
                         'h_of_p': h2.tolist(), 'p_back': p2.tolist()}
+            if k == 'atmos':
+                from AEIC.emissions.types import AtmosphericState
+                st = AtmosphericState(np.array(c['h'], dtype=float), np.array(c['tas'], dtype=float))
+                return {'out': [list(map(float, t)) for t in zip(st.temperature, st.pressure, st.mach)]}
             if k == 'ffm2':
                 from AEIC.emissions.utils import get_SLS_equivalent_fuel_flow
                 a = {n: np.array([pt[i] for pt in c['pts']], dtype=float) for i, n in enumerate(['ff', 'P', 'T', 'M'])}
@@ -272,7 +295,8 @@ def impl_case(c):
                 P = np.array([p[2] for p in c['pts']], dtype=float)
 
                 def run(ei):
-                    r = BFFM2_EINOx(ff, tmv(ei), tmv(c['cal']), T, P)
+                    with quiet_fd1():
+                        r = BFFM2_EINOx(ff, tmv(ei), tmv(c['cal']), T, P)
                     return [list(map(float, t)) for t in zip(r.NOxEI, r.NOEI, r.NO2EI, r.HONOEI, r.noProp,
                                                              r.no2Prop, r.honoProp)]
                 return {'out': run(c['ei']), 'out_k': run([e * c['k'] for e in c['ei']])}
@@ -365,6 +389,9 @@ def model_expr(c, variant):
         ps = lst(fl(p) for p in c['p'])
         return (f'(map (fun h => (@isa_temperature F h, @isa_pressure F h, @isa_altitude F (@isa_pressure F h))) {hs}, '
                 f'map (fun p => (@isa_altitude F p, @isa_pressure F (@isa_altitude F p))) {ps})')
+    if k == 'atmos':
+        pts = lst(f'({fl(h)}, {fl(t)})' for h, t in zip(c['h'], c['tas']))
+        return f"map (fun x => let '(h, tas) := x in @atmos_state F h tas) {pts}"
     if k == 'ffm2':
         pts = lst(tup(p) for p in c['pts'])
         return (f"map (fun x => let '(ff, P, Ta, M) := x in @ffm2_std F ff P Ta M {fl(c['n_eng'])}) {pts}")
@@ -503,10 +530,14 @@ def gen_case(rng, kind, count):
     k = float(rng.choice([0.25, 0.5, 2.0, 3.0, rng.uniform(0.1, 10.0)]))
     if kind == 'isa':
         hs = [0.0, 11000.0, 25000.0, 10999.999, 11000.001] + [rng.uniform(0, 25000) for _ in range(5)]
-        ps = [101325.0, o_isa_p(11000.0), o_isa_p(24999.0)] + [o_isa_p(rng.uniform(0, 25000)) * (1 + rng.uniform(-1e-3, 1e-3))
+        # pressures whose altitude stays inside 0-25 km (the code refuses altitudes above 25 km by design)
+        ps = [101325.0, o_isa_p(11000.0), o_isa_p(24999.0)] + [o_isa_p(rng.uniform(0, 24900)) * (1 + rng.uniform(-1e-3, 1e-3))
                                                               for _ in range(5)]
         ps = [min(p, 101325.0) for p in ps]
         return {'kind': kind, 'h': [float(h) for h in hs], 'p': [float(p) for p in ps]}
+    if kind == 'atmos':
+        hs = [0.0, 11000.0, 25000.0] + [rng.uniform(0, 25000) for _ in range(7)]
+        return {'kind': kind, 'h': [float(h) for h in hs], 'tas': [float(rng.choice([0.0, rng.uniform(0, 290)])) for _ in hs]}
     if kind == 'ffm2':
         pts = []
         for _ in range(8):
@@ -603,6 +634,11 @@ def judge(chk: Check, c, impl, model, ext, nox_flat):
             elif not rel(pb, p):
                 bad = (f'p -> h -> p round trip at p={p}: got {pb}', None)
         chk.count('isa:stratosphere', sum(1 for h in c['h'] if h > 11000))
+    elif k == 'atmos':
+        for h, tas, (T, P, M) in zip(c['h'], c['tas'], impl['out']):
+            want = (o_isa_T(h), o_isa_p(h), tas / math.sqrt(1.4 * O_R * o_isa_T(h)))
+            if not finite_nonneg([T, P, M]) or not all(rel(a, b, 1e-9, 1e-15) for a, b in zip((T, P, M), want)):
+                bad = (f'AtmosphericState at h={h} m, TAS={tas} m/s: implementation {(T, P, M)}, cited {want}', None)
     elif k == 'ffm2':
         for i, (ff, P, T, M) in enumerate(c['pts']):
             v, vk = impl['sls'][i], impl['sls_k'][i]
@@ -751,6 +787,10 @@ def diff_model(c, impl, m):
             for i, (h2, pb) in enumerate(b):
                 if not (close(h2, impl['h_of_p'][i], 1e-9, 1e6) and _cl(pb, impl['p_back'][i])):
                     return f'p={c["p"][i]}: model {(h2, pb)} vs impl {(impl["h_of_p"][i], impl["p_back"][i])}'
+        elif k == 'atmos':
+            for i, v in enumerate(m):
+                if not all(_cl(x, y) for x, y in zip(v, impl['out'][i])):
+                    return f'h={c["h"][i]} tas={c["tas"][i]}: model {v} vs impl {impl["out"][i]}'
         elif k == 'ffm2':
             for i, v in enumerate(m):
                 if not _cl(v, impl['sls'][i]):
@@ -874,7 +914,7 @@ def check_cases(chk: Check, cases, have_ext):
         judge(chk, c, i, m, x, nox_flat)
 
 
-KINDS = [('isa', 30, 300), ('ffm2', 40, 400), ('cat', 120, 1500), ('nox', 220, 3000), ('hcco', 320, 4500),
+KINDS = [('isa', 30, 300), ('atmos', 20, 200), ('ffm2', 40, 400), ('cat', 120, 1500), ('nox', 220, 3000), ('hcco', 320, 4500),
          ('sox', 40, 300), ('pmvol', 30, 300), ('scope11', 100, 1200), ('meem', 100, 1200)]
 
 
